@@ -1,4 +1,4 @@
-(* C04 Spec: who is admitted, as three small decision functions over idealised crypto.
+(* C04 Spec: who is accepted, as three small decision functions over idealised crypto.
    Nothing here mentions counters, header syntax, int64 or status plumbing. *)
 From God Require Import Base.Prelude.
 From Coq Require Import String.
@@ -10,7 +10,7 @@ Section JwtSpec.
      are valid (the jwt library's verdict). Secret 0 is the empty string = "no previous secret". *)
   Variable jwt_ok : N -> N -> bool.
 
-  Definition jwt_admit (secret prev tok : N) : bool :=
+  Definition jwt_accept (secret prev tok : N) : bool :=
     jwt_ok secret tok || (negb (prev =? 0)%N && jwt_ok prev tok).
 End JwtSpec.
 
@@ -47,7 +47,7 @@ Section SigSpec.
   Variable hmac : sbytes -> sbytes -> sbytes.
   Variable sha : sbytes -> sbytes.
 
-  Definition sig_admit (tol now : Z) (q : signed_request) : bool :=
+  Definition sig_accept (tol now : Z) (q : signed_request) : bool :=
     q_decrypts q &&
     match q_ts q with
     | Some ts => within tol now ts &&
@@ -63,8 +63,8 @@ Definition guarded_methods : list string := ["GET"; "POST"; "PUT"; "DELETE"]%str
 (* what the store holds for the app, as seen by the server (through its 5-minute cache) *)
 Inductive stored := StFail | StNone | StTok (t : N).
 
-(* true = admitted *)
-Definition rpc_admit (strict has_md : bool) (st : stored) (token : N) : bool :=
+(* true = accepted *)
+Definition rpc_accept (strict has_md : bool) (st : stored) (token : N) : bool :=
   if negb has_md then false
   else match st with
        | StTok t => (token =? t)%N
